@@ -17,7 +17,8 @@ ASSUME = ['sequentially consistent interleavings at the granularity of individua
 RULE = ('scenarios = 5 pools (capacity 130 = two inner levels with free pages in different leaves {1,65,129} / in one leaf {1,2} / none; '
         'capacity 3 = one inner level, created full / empty; each process initially holds one page in the non-full pools) x all script tuples '
         'over {o = pop, u = push back the page acquired last}: quick 2 processes x <=3 ops and 3 processes x 1 op, preemption bound 2; '
-        'thorough 2 processes x <=3 ops and 3 processes x <=2 ops, bound 3; every schedule within the bound runs the real pop()/push()')
+        'thorough 2 processes x <=3 ops bound 3, 3 processes x <=2 ops bound 2 and 3 processes x 1 op bound 3; every schedule within the '
+        'bound runs the real pop()/push()')
 
 
 def _build(ctx):
@@ -40,7 +41,7 @@ def _result(ctx, m):
         'states': c.get('states', 0), 'transitions': c.get('steps', 0),
         'traces_validated_against_impl': c.get('executions', 0),
         'scenarios': m['evaluations'], 'scenarios_completed_at_bound': c.get('scenarios_completed_at_bound', 0),
-        'bound_completed': ('2 preemptions' if ctx.quick else '3 preemptions') if not partial else 'partial',
+        'bound_completed': ('2 preemptions' if ctx.quick else '3 preemptions (2 for three processes with two operations each)') if not partial else 'partial',
         'histories_checked': c.get('histories_checked', 0),
         'conflict_witnesses': {k: c.get(k, 0) for k in ('context_switches', 'pop_ok', 'pop_empty', 'pushes', 'skipped_pushes',
                                                         'pops_with_cas_retry', 'histories_with_overlapping_ops',
